@@ -158,7 +158,8 @@ CHECKS["C15"] = dict(
     text="C15_on_is_resolved / C15_after_is_resolved / C15_*_absent: for every process history of class definitions, the "
          "entry of an action is the (unique) decorated method that lookup on the instance resolves to, with its own skip flag "
          "-- the statements mention the rest of the history only through lookup, so other classes, their order and name reuse "
-         "cannot matter; C15_no_getters. Tied by defining generated hierarchies for real in two orders and reading the map "
+         "cannot matter (a method may carry on() alone, after() alone, or both stacked in either order: handles / follows, "
+         "C15_handles_spelled_out, C15_follows_spelled_out); C15_no_getters. Tied by defining generated hierarchies for real in two orders and reading the map "
          "back (owner, name, flag, bound instance), and by an independent getattr_static walk.",
     note="Trusted: Coq kernel + VM, the hand model of routing.py and of single-inheritance attribute lookup (compared). "
          "Multiple inheritance / metaclasses are outside the model.", design="4/C15")
